@@ -411,6 +411,31 @@ def run(ctx):
                     why = f"elements are passed through unconverted when isinstance({var}, {norm(t.args[1])}), which is wider than the element type"
         elif isinstance(elt, ast.Call) and norm(elt.func) == "self.__type__":
             ok = True
+    if not comps:
+        # explicit loop form: every place where the loop variable itself is put into the result needs the fact
+        # isinstance(f, self.__type__); every other element must be self.__type__(f)
+        ccfg = CFG(conv)
+        loops = [n for n in walk_no_nested(conv) if isinstance(n, ast.For)]
+        if len(loops) == 1 and isinstance(loops[0].target, ast.Name):
+            var = loops[0].target.id
+            puts = [c for c in ast.walk(loops[0]) if isinstance(c, ast.Call) and isinstance(c.func, ast.Attribute) and c.func.attr in ("append", "add") and c.args]
+            ok = bool(puts)
+            for pcall in puts:
+                a = pcall.args[0]
+                if isinstance(a, ast.Name) and a.id == var:
+                    facts = {(t, p) for t, p, _ in ccfg.facts_at(ccfg.node_of(pcall).id)}
+                    good = (f"isinstance({var}, self.__type__)", True) in facts
+                    if not good:
+                        wide = [t for t, p in facts if p and t.startswith(f"isinstance({var}, ")]
+                        why = (f"elements are passed through unconverted when {wide[0]}, which is wider than the element type" if wide else
+                               "an element is stored unconverted without an isinstance(element, self.__type__) test")
+                    ok &= good
+                elif isinstance(a, ast.Call) and norm(a.func) == "self.__type__" and [norm(x) for x in a.args] == [var]:
+                    continue
+                else:
+                    ok = False
+            rets = [r for r in walk_no_nested(conv) if isinstance(r, ast.Return)]
+            ok &= len(rets) == 1 and isinstance(rets[0].value, ast.Name)
     ctx.check(ok, "R5.7", "typedlist._convert:element", why, conv, "every element is self.__type__(f) unless already an instance of it",
               key="R5.7:typedlist._convert:element-passthrough")
     tinit = ctx.anchor_func("flow.record.fieldtypes.typedlist.__init__")
